@@ -29,7 +29,7 @@ def fams(tier):
 
 
 def traps(tier):
-    return [t for be in ('memory','file') for t in cachefam.trap_families(be) if 'reader' in t['name']]
+    return [t for be in ('memory','file') for t in cachefam.trap_families(be) if 'reader' in t['name'] or 'expiry' in t['name']]
 
 
 def run(tier, seed):
